@@ -5,13 +5,21 @@ KEYS = ['parso.python.tree._StringComparisonMixin.__eq__', 'parso.python.tree._S
         'parso.tree.Leaf.start_pos.setter', 'parso.tree.Leaf.start_pos', 'parso.tree.Leaf.get_code',
         'parso.tree.BaseNode.get_code', 'parso.tree.BaseNode._get_code_for_children',
         'parso.tree.Leaf.__init__', 'parso.tree.TypedLeaf.__init__', 'parso.tree.ErrorLeaf.__init__',
-        'parso.tree.BaseNode.__init__', 'parso.tree.Node.__init__']
+        'parso.tree.BaseNode.__init__', 'parso.tree.Node.__init__',
+        # refactoring is an exact splice: the visit recursion computes the spec function rcode (contracts/refactor.py)
+        'parso.normalizer.RefactoringNormalizer.visit', 'parso.normalizer.RefactoringNormalizer.visit_leaf',
+        'parso.normalizer.Normalizer.visit#refactor', 'parso.normalizer.Normalizer.visit_leaf#refactor',
+        'parso.normalizer.Normalizer._check_type_rules#refactor']
 
 
 def run(report):
     add_obs(report, C.tree_protocol_obligations)
     verify_keys(report, KEYS)
     report.assume("A-BUILTIN: eval(repr(x)) == x for str/int/tuple, pickle preserves slots, __dict__ and cycles",
-                  "the recursive text of _format_dump and the splice property of RefactoringNormalizer.visit are decided by "
-                  "the bounded stand-in, not by discharged VCs")
+                  "the recursive text of _format_dump is decided by the bounded stand-in, not by discharged VCs",
+                  "splice: RefactoringNormalizer.visit is proved to return rcode(map, node), the recursive spec function 'text of "
+                  "the tree with every mapped node replaced by its string' (theory splice); dict lookup by a tree object is by "
+                  "identity (_StringComparisonMixin.__eq__ contract); the mutual recursion visit -> Normalizer.visit -> visit "
+                  "is verified for partial correctness (termination by tree height not checked across the two functions); "
+                  "Normalizer.walk / Grammar.refactor (constructor + walk wrapper) are not under contract")
     run_bounded(report, ['stmt'], scale=0.5)
